@@ -97,7 +97,11 @@ def group_events_using_async_information(
             async_groups[async_event_types[event.event_type]].append(event)
         else:
             non_async_groups.append([event])
-    groups = list(async_groups.values()) + non_async_groups
+    # a configured group none of whose event types occurs among the events
+    # has no members and is not a group of these events
+    groups = [
+        group for group in async_groups.values() if group
+    ] + non_async_groups
     return groups
 
 
